@@ -11,9 +11,11 @@
        list empty, AuthPlugin loaded iff --basic-auth) compute, on the abstraction of a parser
        state, exactly what Forward computes on the parser state: same bytes queued for the
        upstream, same packets queued for the client, same teardown / escaping exception,
-     * records the one input class on which the C08/C09 model DISAGREES with Forward (and with the
-       Python): a request-target port above 65535 (PluginChain.connect_upstream has no port-range
-       check; fix f918c36 added it to the Python). *)
+     * history: this link first held only for ports <= 65535 — PluginChain.connect_upstream had no
+       port-range check (the Python has one since fix f918c36).  That disagreement was found here
+       (witness `GET http://h:65536/`), reported, and REPAIRED in Net/PluginChain.v / Net/Auth.v
+       (rq_port is now the Python int, a Z); the link below is unconditional in the port and the former
+       witness is kept as a regression example (chain_first_request_port_regression). *)
 From PM Require Import Lib.Bytes Lib.BytesFacts Lib.PyStr Http.Url Http.Chunk Http.Parser Http.Builders Http.Upstream.
 From PM Require Net.Auth Net.PluginChain Net.Forward Net.ForwardFacts Net.Conversation Net.ConversationLink
   Net.Responses Links.Builders.
@@ -35,12 +37,10 @@ Theorem forward_conversation_rebuild_agree agent c t p :
 Proof. exact (ConversationLink.rebuild_agrees agent c t p). Qed.
 
 (* ================================================================== the abstraction *)
-Definition port_N (z : option Z) : option N := option_map Z.to_N z.
-
 (* what Net/Auth.v's request record keeps of an HttpParser object; rq_body is what
    _get_body_or_chunks() returns (Forward.wire_body, total because DEFAULT_BUFFER_SIZE > 0) *)
 Definition areq_of (p : parser) : A.request :=
-  A.mkRequest (or_empty (method p)) (host p) (port_N (port p)) (path p) (or_empty (version p))
+  A.mkRequest (or_empty (method p)) (host p) (port p) (path p) (or_empty (version p))
               (F.unopt (headers p)) (F.wire_body p) (is_https_tunnel p).
 
 Definition ccfg_of (fc : F.fcfg) : C.config := C.mkConfig (F.cf_agent fc) (F.cf_disable fc).
@@ -281,17 +281,6 @@ Proof. eexists. eexists. vm_compute. reflexivity. Qed.
 Lemma pkt_nonempty_auth_failed agent : exists x t, A.PROXY_AUTH_FAILED_RESPONSE_PKT agent = x :: t.
 Proof. eexists. eexists. vm_compute. reflexivity. Qed.
 
-Lemma port_cases (z : Z) : (z <= 65535)%Z ->
-  (Z.to_N z =? 0) = negb ((0 <? z)%Z && (z <=? 65535)%Z) /\ ((z =? 0)%Z = true -> (Z.to_N z =? 0) = true).
-Proof.
-  intros Hz. split.
-  - destruct (Z.ltb_spec 0 z) as [H|H]; cbn [andb negb].
-    + replace (z <=? 65535)%Z with true by (symmetry; apply Z.leb_le; exact Hz). cbn [negb].
-      apply N.eqb_neq. lia.
-    + apply N.eqb_eq. lia.
-  - intros H. apply Z.eqb_eq in H. subst z. reflexivity.
-Qed.
-
 Record quiet (l : C.log) : Prop := {
   q_up : up_bytes l = []; q_cl : cl_bytes l = []; q_torn : ends_torn l = false; q_esc : escaped_code l = None }.
 
@@ -326,16 +315,15 @@ Proof.
 Qed.
 
 (* MAIN LINK of this file: the first request of a connection.  For every parser state [r] of request
-   type whose port (if any) is at most 65535, every configuration and connect outcome, the chain
+   type, every port value, every configuration and connect outcome, the chain
    model (C08/C09) run on the abstraction of [r] and the Forward model (C02) run on [r] queue the same
    bytes for the upstream, the same packets for the client, and agree on teardown / escaping
    exception. *)
 Theorem chain_first_request_is_forward fc r ok :
   F.cf_via_append fc = true -> is_request (ty r) = true ->
-  (forall z, port r = Some z -> (z <= 65535)%Z) ->
   first_agree fc (chain_first fc r ok) (FF.catch (F.on_request_complete fc ok (plugin_state0 r))).
 Proof.
-  intros Hv Hty Hport.
+  intros Hv Hty.
   unfold chain_first. cbn [C.run_steps]. unfold C.on_request_complete, F.on_request_complete.
   (* --- before_upstream_connection chain --- *)
   assert (Hbuc :
@@ -366,16 +354,15 @@ Proof.
   destruct Hbuc as (-> & ->).
   (* --- connect_upstream --- *)
   unfold C.connect_upstream, connect_upstream.
-  change (A.rq_host (areq_of r)) with (host r). change (A.rq_port (areq_of r)) with (port_N (port r)).
+  change (A.rq_host (areq_of r)) with (host r). change (A.rq_port (areq_of r)) with (port r).
   destruct (host r) as [[|hx ht]|] eqn:Hh; destruct (port r) as [z|] eqn:Hz;
-    cbn [A.nonempty port_N option_map length Nat.eqb negb andb];
+    cbn [A.nonempty length Nat.eqb negb andb];
     try (cbn [fst C.escapes C.handle_data_end C.run_steps FF.catch F.exc_response N.eqb Pos.eqb];
          apply first_agree_quiet; [exact Q1|]; split; reflexivity).
-  destruct (port_cases z (Hport z eq_refl)) as [Hp1 Hp2].
   destruct (z =? 0)%Z eqn:Hz0.
-  { rewrite (Hp2 eq_refl). cbn [negb andb fst C.escapes C.handle_data_end C.run_steps FF.catch F.exc_response N.eqb Pos.eqb].
+  { cbn [negb andb fst C.escapes C.handle_data_end C.run_steps FF.catch F.exc_response N.eqb Pos.eqb].
     apply first_agree_quiet; [exact Q1|]; split; reflexivity. }
-  cbn [negb andb]. rewrite Hp1.
+  cbn [negb andb].
   destruct ((0 <? z)%Z && (z <=? 65535)%Z) eqn:Hrange; cbn [negb].
   2:{ cbn [fst C.escapes C.handle_data_end C.run_steps FF.catch F.exc_response N.eqb Pos.eqb].
       apply first_agree_quiet; [exact Q1|]; split; reflexivity. }
@@ -423,11 +410,12 @@ Proof.
       apply first_agree_quiet; [exact Q3|]. split; reflexivity.
 Qed.
 
-(* ================================================================== GENUINE DISAGREEMENT: port > 65535 *)
+(* ================================================================== formerly a disagreement: port > 65535 *)
 (* `GET http://h:65536/ HTTP/1.1`: the Python (since fix f918c36), Forward, Conversation and Upstream raise
-   HttpProtocolException('Invalid port') -> teardown, no connect, nothing forwarded.  The chain model
-   (PluginChain.connect_upstream, written before that fix) connects to ("h", 65536) and forwards the request.
-   Replayed on /repo through harness/sim.py: teardown, connect log empty. *)
+   HttpProtocolException('Invalid port') -> teardown, no connect, nothing forwarded (replayed on /repo through
+   harness/sim.py).  The chain model used to connect to ("h", 65536) and forward the request
+   (`chain_first_request_port_differ`, proved here against the model as it was); agent-Plugins added the range
+   check.  Regression example: on the former witness the two models now agree. *)
 Definition fc0 : F.fcfg :=
   {| F.cf_agent := bs "proxy.py v2.4"; F.cf_disable := []; F.cf_auth_code := None;
      F.cf_via_append := true; F.cf_upgrade_complete := true |}.
@@ -435,14 +423,15 @@ Definition r_port65536 : parser :=
   match parse (new_parser REQUEST_PARSER) (bs "GET http://h:65536/ HTTP/1.1" ++ CRLF ++ CRLF) with
   | Ok p => p | Err _ => new_parser REQUEST_PARSER end.
 
-Lemma chain_first_request_port_differ :
-  connects (chain_first fc0 r_port65536 true) = [(bs "h", 65536)] /\
-  up_bytes (chain_first fc0 r_port65536 true) <> [] /\
-  ends_torn (chain_first fc0 r_port65536 true) = false /\
+Example chain_first_request_port_regression :
+  port r_port65536 = Some 65536%Z /\
+  connects (chain_first fc0 r_port65536 true) = [] /\
+  up_bytes (chain_first fc0 r_port65536 true) = [] /\
+  ends_torn (chain_first fc0 r_port65536 true) = true /\
   (exists st, FF.catch (F.on_request_complete fc0 true (plugin_state0 r_port65536)) = F.Done true st /\
               F.upstream_queue st = [] /\ F.h_client st = []).
 Proof.
-  split; [vm_compute; reflexivity|]. split; [vm_compute; discriminate|]. split; [vm_compute; reflexivity|].
+  repeat (split; [vm_compute; reflexivity|]).
   eexists. split; [vm_compute; reflexivity|]. split; reflexivity.
 Qed.
 
